@@ -1,4 +1,4 @@
 """Manifest-level constants. Per-property wording lives in lib/cfg/Cxx.py (TEXT)."""
 from props import TEXT  # noqa: F401
-HOOK_COMMITS = ["2ecfd70"]
+HOOK_COMMITS = ["2ecfd70", "eac145e"]
 NOT_YET = {}
